@@ -16,37 +16,6 @@ from sim.core import Check, Result, jdigest
 SAMPLERS = ["uniform", "halton", "rseq", "pso"]
 
 
-def ref_stop(script, batch_sizes, precision, ops, start_rows=0):
-    """-> list per op of (batches run, rows after, batch index after, raised?).  ops: ["calibrate", n] or
-    ["calibrate_fault_update", n, k] (the scheduler hook raises at its k-th call: that batch is in the history and in the
-    running minimum, but neither the batch index nor the round-robin position move, and the call ends with the exception)"""
-    rows = start_rows
-    bidx = 0
-    pos = 0
-    out = []
-    best = np.inf
-    for op in ops:
-        n = op[1]
-        fault_at = op[2] if op[0] == "calibrate_fault_update" else None
-        ran = 0
-        raised = False
-        for b in range(n):
-            bs = batch_sizes[pos % len(batch_sizes)]
-            vals = [abs(script[min(rows + j, len(script) - 1)]) for j in range(bs)]
-            best = min(best, *vals)
-            rows += bs
-            if fault_at is not None and b == fault_at:
-                raised = True
-                break
-            bidx += 1
-            pos += 1
-            ran += 1
-            if precision is not None and np.round(best, precision) == 0:
-                break
-        out.append((ran, rows, bidx, raised))
-    return out
-
-
 class C14Sim(calsim.CalSim):
     """after every calibrate() with a folder, restore it and remember the restored state"""
 
@@ -105,13 +74,18 @@ class C14(Check):
             k = rng.randint(0, 13) if u < 0.5 else rng.randint(0, 3)
             return float(f"{m}e-{k}")
         script = [val() for _ in range(total)]
+        signed = rng.random() < 0.25
+        if signed:
+            # a loss that can be negative (user-defined / likelihood-type): the stop rule looks at the *smallest* loss
+            script = [-v if rng.random() < 0.3 else v for v in script]
         if prec is not None and rng.random() < 0.5:
             # make sure a value that rounds to zero appears somewhere in the first call
             pos = rng.randrange(0, min(len(script), calls[0] * 2))
             script[pos] = float(f"{rng.choice([1, 2, 3, 4])}e-{prec + 1 + rng.randint(0, 2)}")
         E = rng.randint(1, 2)  # noqa: N806
         cfg = {"space": calsim.gen_space(rng, dims), "lineup": lineup, "scheduler": {"kind": "rr"},
-               "loss": {"cls": "minkowski", "opts": {"p": 1}}, "model": {"kind": "scripted", "D": 1, "extreme": 0.0},
+               "loss": {"cls": "readoff", "opts": {}} if signed else {"cls": "minkowski", "opts": {"p": 1}},
+               "model": {"kind": "scripted", "D": 1, "extreme": 0.0},
                "N": 1, "sim_length": None, "real_seed": 0, "ensemble": E, "cal_seed": rng.randrange(2 ** 31),
                "convergence_precision": prec, "script": script, "script_per": E}
         env = {"verbose": rng.random() < 0.5, "folder": rng.random() < 0.5}
@@ -132,7 +106,10 @@ class C14(Check):
         twin = C14Sim(scn, env={"verbose": not sim.env["verbose"]}).run()
         calls = [op[1] for op in scn["ops"]]
         prec = cfg["convergence_precision"]
-        script = [abs(v) for v in cfg["script"]]
+        signed = cfg["loss"]["cls"] == "readoff"
+        script = [v if signed else abs(v) for v in cfg["script"]]
+        if signed:
+            res.stats["signed-loss-sequences"] += 1
         # batch sizes are taken from what the sampler seam observed (who is scheduled is C09's business, not this property's)
         sizes = [len(b.returned) for b in sim.batches if b.returned is not None]
         si = rows = bidx = 0
